@@ -24,6 +24,7 @@ func round5Rules(c *Ctx) {
 	c.noFilterRule()
 	c.overrideKeyRule()
 	c.refExpandRule()
+	c.roundTripRule()
 }
 
 // inheritRule (C14, GUARD-INHERIT): "consumes/produces are the operation's own lists when non-empty and the
@@ -306,6 +307,26 @@ func (c *Ctx) overrideKeyRule() {
 	if n == 0 {
 		c.S.Note("ENC-OVERRIDEKEY: the override key reads no extension at all")
 	}
+	// … and it keeps distinct names distinct: the name does not pass through a function that maps different names to
+	// one (a Go-identifier mangler, case folding): "foo-bar" and "foo_bar" in the same location are two parameters
+	seenNI := map[string]bool{}
+	for _, kf := range keyFns {
+		for _, g := range core.SortedSet(c.P.Reachable(kf)) {
+			for _, call := range calls(g.Decl.Body) {
+				cal := c.P.CalleeAny(g, call)
+				if cal == nil || !nonInjective[cal.FullName()] {
+					continue
+				}
+				if seenNI[cal.Name()] {
+					continue
+				}
+				seenNI[cal.Name()] = true
+				// keyed by role, not by the name of the function that holds the call (a known finding must survive renames)
+				c.S.Violate("C15", "ENC-OVERRIDEKEY", "override-key/"+cal.Name(), c.P.Pos(call.Pos()),
+					"the key under which parameters override each other is built from "+cal.Name()+"(name), which maps different names to one key (\"foo-bar\", \"foo_bar\" and \"foo bar\"; \"?\" and \"#\"): distinct parameters of the same location override each other, a path-level parameter is \"overridden\" by an operation parameter with another name, and fewer parameters are reported than the operation has")
+			}
+		}
+	}
 }
 
 // refExpandRule (C20, PIPE-REFEXPAND): a schema that is a $ref is classified as its target. The target handed to the
@@ -379,5 +400,48 @@ func (c *Ctx) refExpandRule() {
 	}
 	if n < 1 {
 		c.S.Note("PIPE-REFEXPAND: no recursive analysis of a $ref target found (one on the pinned tree: inferFromRef)")
+	}
+}
+
+// roundTripRule (C20, GUARD-ROUNDTRIP): a schema that is only a $ref is classified on a copy of its target that went
+// through a JSON round trip (spec.ExpandSchema). The round trip does not keep the difference between a nil and an empty
+// list: `"items": []` loads as a non-nil empty slice and is marshalled back as absent. A classification flag that
+// tests a list member of the schema against nil therefore classifies the target and the $ref differently; emptiness
+// is tested with len. (Defect F27: an empty tuple was neither array nor tuple directly, and an array through a $ref.)
+func (c *Ctx) roundTripRule() {
+	n := 0
+	for _, fi := range c.P.SortedFuncs() {
+		if fi.Pkg.PkgPath != core.ModPath || fi.Decl.Recv == nil || !strings.HasPrefix(fi.Name(), "AnalyzedSchema.") {
+			continue
+		}
+		info := c.info(fi)
+		k := 0
+		ast.Inspect(fi.Decl.Body, func(nd ast.Node) bool {
+			be, ok := nd.(*ast.BinaryExpr)
+			if !ok || be.Op != token.EQL && be.Op != token.NEQ {
+				return true
+			}
+			for _, pr := range [][2]ast.Expr{{be.X, be.Y}, {be.Y, be.X}} {
+				if !core.IsNilExpr(info, pr[1]) || !core.IsSlice(info.TypeOf(pr[0])) {
+					continue
+				}
+				sel, isSel := core.Unparen(pr[0]).(*ast.SelectorExpr)
+				if !isSel {
+					continue
+				}
+				fv := core.FieldOf(info, sel)
+				if fv == nil || fv.Pkg() == nil || fv.Pkg().Path() != core.SpecPath {
+					continue
+				}
+				k++
+				n++
+				c.S.Violate("C20", "GUARD-ROUNDTRIP", fmt.Sprintf("%s/%s#%d", fi.QName(), fv.Name(), k), c.P.Pos(be.Pos()),
+					"`"+exprStr(be)+"` tests a list of the schema against nil: an empty JSON array loads as a non-nil empty slice and comes back as absent from the JSON round trip that expands a $ref, so the schema and a $ref to it classify differently (an empty tuple is neither array nor tuple directly, and an array through a $ref)")
+			}
+			return true
+		})
+	}
+	if n == 0 {
+		c.S.Hold("C20", "GUARD-ROUNDTRIP", "AnalyzedSchema", "-", "no classification flag tests a list member of the schema against nil (emptiness is tested with len)")
 	}
 }
